@@ -30,15 +30,37 @@ def in_loop(f, bi):
     return False
 
 
+def verdict_value(f, a):
+    """a Return operand that can carry a verdict: a constant, or an error value built on the spot"""
+    if a['k'] in ('const', 'global'):
+        return True
+    if a['k'] == 'reg':
+        for b in f['blocks']:
+            for ins in b['instrs']:
+                if ins.get('name') == a['n']:
+                    if ins['op'] == 'Call' and ins['a'][0].get('n') in ('errors.New', 'fmt.Errorf'):
+                        return True
+                    if ins['op'] == 'MakeInterface':
+                        return True
+                    if ins['op'] == 'UnOp' and ins['x'].get('op') == '*' and ins['a'][0]['k'] == 'global':
+                        return True      # a package-level error value
+                    return False
+    return False
+
+
 def return_only(f, bi, depth=0):
-    """every path from block bi reaches a Return through blocks without memory access or calls"""
+    """every path from block bi reaches a Return through blocks without memory access or calls, and every such Return
+    hands back verdict values only (constants / error values; at least one): `return ret, nil` after skipped work or a
+    bare `return` is not a verdict"""
     b = f['blocks'][bi]
     for ins in b['instrs']:
         if ins['op'] in ('Call', 'Store', 'Alloc', 'MakeSlice', 'IndexAddr', 'FieldAddr', 'Slice', 'Panic') or (ins['op'] == 'UnOp' and ins['x'].get('op') == '*'):
-            if not (ins['op'] == 'Call' and ins['a'][0].get('n') in ('errors.New', 'fmt.Errorf')) and ins['op'] != 'MakeInterface':
+            if not (ins['op'] == 'Call' and ins['a'][0].get('n') in ('errors.New', 'fmt.Errorf')) and ins['op'] != 'MakeInterface' \
+                    and not (ins['op'] == 'UnOp' and ins['a'][0]['k'] == 'global'):
                 return False
-    if any(ins['op'] == 'Return' for ins in b['instrs']):
-        return True
+    rets = [ins for ins in b['instrs'] if ins['op'] == 'Return']
+    if rets:
+        return all(len(r['a']) >= 1 and all(verdict_value(f, a) for a in r['a']) for r in rets)
     if depth > 4 or not b['succs']:
         return False
     return all(return_only(f, s, depth + 1) for s in b['succs'])
@@ -53,6 +75,7 @@ def main():
     S64 = z3.BitVec('secret64', 64)
     S8 = z3.BitVec('secret8', 8)
     findings = {}
+    allowed = set()
     covered = []
     t0 = time.time()
 
@@ -63,6 +86,7 @@ def main():
                 succs = f['blocks'][bi]['succs']
                 verdict = (not in_loop(f, bi)) and any(return_only(f, s) for s in succs)
                 if verdict:
+                    allowed.add((fn, bi, pos))
                     continue
             k = (kind, pos or fn)
             findings.setdefault(k, dict(fn=fn, kind=kind, pos=pos, ops=set()))['ops'].add(label)
@@ -138,6 +162,9 @@ func TestVerifReplay(t *testing.T) {
             ck.violation(key, desc, fname or '-')
         else:
             ck.record('ct[%s]' % key, 'inconclusive', desc + ' - block counts of the two secrets do not differ on the real build')
+    if os.environ.get('VERIF_DEBUG'):
+        for a in sorted(allowed, key=str):
+            print('  [verdict branch allowed]', a)
     if not findings:
         ck.record('constant_time', 'proved', 'no branch condition, index or slice bound depends on secret data in the listed operations, apart from verdict branches (return-only arm, outside loops)', ck.bounds[0], secs,
                   sample=dict(operation='ScalarBaseMult', secret='k (32 bytes)', claim='all If conditions and all indices are secret-free'))
